@@ -169,7 +169,7 @@ Proof.
     destruct (show_N q) as [|c r] eqn:Es; [exfalso; revert Es; apply show_N_nonempty|].
     cbn [app]. rewrite (show_N_first q c r Hq Es).
     change (c :: r ++ 46 :: fixed_digits pn mag) with ((c :: r) ++ [46] ++ fixed_digits pn mag).
-    rewrite <- Es. rewrite Hbody. rewrite read_show_N by exact Hq. rewrite read_fixed_digits by exact Hpn.
+    rewrite Hbody. rewrite <- Es. rewrite read_show_N by exact Hq. rewrite read_fixed_digits by exact Hpn.
     rewrite fixed_digits_length, Hval. f_equal. f_equal; [unfold mag; lia | unfold zlen; rewrite fixed_digits_length; unfold pn; lia].
 Qed.
 
@@ -314,3 +314,21 @@ Qed.
 (* float32: RFC 7951 rendering is the "%f" text (six fraction digits) - the digits are outside the model *)
 Lemma json_float fx b : json_leaf fx true (new_float b) = Ok (Some (JFloatF (tv_float (new_float b)))).
 Proof. reflexivity. Qed.
+
+(* ------------------------------------------------------------ the hypotheses are satisfiable (non-trivial inputs) *)
+Example ex_int64_extremes : int64_rangeb (-9223372036854775808) = true /\ int64_rangeb 9223372036854775807 = true.
+Proof. split; reflexivity. Qed.
+Example ex_uint64_extreme : uint64_rangeb 18446744073709551615 = true.
+Proof. reflexivity. Qed.
+Example ex_journey_int64_min : journey false (GInt (-9223372036854775808)) (Some [64]) = Ok (GInt (-9223372036854775808)).
+Proof. vm_compute. reflexivity. Qed.
+Example ex_journey_ll_bytes_leading_empty :
+  journey false (GLeafList [GBytes []; GBytes [1; 2]%N; GBytes [3]%N]) None = Ok (GLeafList [GBytes []; GBytes [1; 2]%N; GBytes [3]%N]).
+Proof. vm_compute. reflexivity. Qed.
+Example ex_json_int64_string :
+  json_leaf false true (new_int 9223372036854775807 64) = Ok (Some (JStr (B "9223372036854775807"))).
+Proof. vm_compute. reflexivity. Qed.
+Example ex_json_int32_number : json_leaf false true (new_int (-2147483648) 32) = Ok (Some (JNum (B "-2147483648"))).
+Proof. vm_compute. reflexivity. Qed.
+Example ex_decimal_fixed_text : str_decimal64_fixed (-5) 1 = B "-0.5" /\ str_decimal64_fixed 105 2 = B "1.05".
+Proof. split; vm_compute; reflexivity. Qed.
